@@ -79,6 +79,8 @@ pub enum Off {
     PrevEnd,
     Pages(u32),
     Arbitrary(u64),
+    /// the previous line's file offset + size (the next piece of a file mapped contiguously)
+    PrevFileEnd,
 }
 
 #[derive(Debug, Clone, PartialEq, Eq, Hash, Serialize, Deserialize)]
@@ -130,6 +132,7 @@ pub fn resolve(c: &Case) -> Vec<Resolved> {
         let offset = match l.off {
             Off::Zero => 0,
             Off::PrevEnd => out.last().map(|p: &Resolved| p.end).unwrap_or(0),
+            Off::PrevFileEnd => out.last().map(|p: &Resolved| p.offset.wrapping_add(p.end - p.start) & 0xffff_ffff_f000).unwrap_or(0),
             Off::Pages(p) => p as u64 * 0x1000,
             Off::Arbitrary(o) => o,
         };
@@ -302,6 +305,16 @@ pub fn check_resolved(lines: &[Resolved], gate: Option<u64>, fp: u64) -> Verdict
                 if !private {
                     dont_care = Some("shared no-access line merged as gap".into());
                 } else if cur.name != Name::None {
+                    // a line that carries a name of its own is not "the linker's reserved gap" by any reading;
+                    // only the two legacy shapes (file offset 0, or file offset == end address of the line
+                    // before it) are left undecided
+                    if cur.name.is_path() && cur.offset != 0 && cur.offset != prev.end {
+                        bad!(
+                            "unjustified-merge:foreign-file-line",
+                            "line {} ({:?}, ---p, file offset {:#x}) is a mapping of another file but was merged into the module of line {} ({:?}) as if it were its reserved gap",
+                            idx[j], cur.name, cur.offset, idx[0], first.name
+                        );
+                    }
                     dont_care = Some("named no-access line in gap position".into());
                 }
                 merges.push("reserved-gap-after-exec");
@@ -376,7 +389,7 @@ fn line_strategy() -> impl Strategy<Value = Line> {
         prop_oneof![6 => Just(0u16), 2 => Just(1u16), 1 => 2u16..300],
         prop_oneof![5 => 1u16..4, 2 => 4u16..600],
         prop_oneof![3 => Just(0u8), 2 => Just(1u8), 2 => Just(5u8), 2 => Just(3u8), 1 => 0u8..16],
-        prop_oneof![4 => Just(Off::Zero), 2 => Just(Off::PrevEnd), 2 => (0u32..64).prop_map(Off::Pages), 1 => any::<u64>().prop_map(|v| Off::Arbitrary(v & 0xffff_ffff_f000))],
+        prop_oneof![4 => Just(Off::Zero), 2 => Just(Off::PrevEnd), 2 => Just(Off::PrevFileEnd), 2 => (0u32..64).prop_map(Off::Pages), 1 => any::<u64>().prop_map(|v| Off::Arbitrary(v & 0xffff_ffff_f000))],
         name_strategy(),
     )
         .prop_map(|(gap, pages, perms, off, name)| Line { gap, pages, perms, off, name })
@@ -609,12 +622,12 @@ pub fn run(ctx: &mut LaneCtx) {
         check_live,
     );
     ctx.assume("'well-formed' = accepted by procfs_core::MemoryMaps::from_read (the parser the dumper uses); under-merging is not judged (the statement only bounds merging from above)");
-    ctx.assume("don't-care merge decisions: named or shared no-access line in gap position; same path where only one line carries the kernel's ' (deleted)' marker; vDSO address equal to the start of a file mapping");
+    ctx.assume("don't-care merge decisions: named (file offset 0 or equal to the preceding end address) or shared no-access line in gap position; same path where only one line carries the kernel's ' (deleted)' marker; vDSO address equal to the start of a file mapping");
     ctx.run_sub(
         SubSpec {
             name: "generated-maps",
             cases: (80_000, 4_000_000),
-            rule: "generated /proc/pid/maps texts (0..40 lines: loader-like blocks + free lines; all perms; offsets 0/prev-end/pages/arbitrary; names none/paths/deleted/pseudo) + vDSO address (none / start of a line / strictly inside a line, byte- or page-aligned / outside every line); non-trivial = at least one merge happened or the gate mapping was renamed; distinct = hash of the case",
+            rule: "generated /proc/pid/maps texts (0..40 lines: loader-like blocks + free lines; all perms; offsets 0/previous end address/previous file offset+size/pages/arbitrary; names none/paths/deleted/pseudo) + vDSO address (none / start of a line / strictly inside a line, byte- or page-aligned / outside every line); non-trivial = at least one merge happened or the gate mapping was renamed; distinct = hash of the case",
             strategy: case_strategy().boxed(),
             max_shrink_iters: 4096,
             log_current: false,
